@@ -1,4 +1,4 @@
-import GateryModel.C09.InvLemmas
+import GateryModel.C09.TypeLemmas
 /-! The in-place erase loop visits every element exactly once; `bypassOutputToInput` terminates unless self-driven;
 internal assertions are unreachable under the invariant. -/
 namespace Gatery.C09
